@@ -462,7 +462,7 @@ def instrument(f):
     return out, None
 
 def _one_cbmc(args):
-    crate_dir, target, h, unwind, timeout = args
+    crate_dir, target, h, unwind, timeout, n_in = args
     f0 = goto_binary(target, h)
     if not f0:
         return h, dict(status='unknown', failed_checks=[], checks=0, failed=0, covers={}, playback=None, time_s=None, error='no goto binary for %s' % h, wall_s=0, cmd='')
@@ -470,7 +470,7 @@ def _one_cbmc(args):
     if not f:
         return h, dict(status='unknown', failed_checks=[], checks=0, failed=0, covers={}, playback=None, time_s=None, error=err, wall_s=0, cmd='')
     cmd = ['cbmc'] + CBMC_FLAGS + ['--unwind', str(unwind)]
-    us = spec_unwindset(target, h)
+    us = spec_unwindset(target, h, bound=max(24, n_in + 4))
     if us: cmd += ['--unwindset', us]
     cmd += [f, '--json-ui']
     t0 = time.time()
@@ -527,7 +527,7 @@ def run_pool(crate_dir, harnesses, features=(), jobs=16, timeout=900, playback=F
         # CBMC is run directly on the goto binaries kani-driver produced in the codegen step: `cargo kani --harness X`
         # recompiles the whole crate for every X (the harness filter is a compiler flag), which serialises the pool
         with ThreadPoolExecutor(max_workers=jobs) as ex:
-            for h, r in ex.map(_one_cbmc, [(crate_dir, target, h, idx[h]['unwind'], timeout) for h in harnesses]):
+            for h, r in ex.map(_one_cbmc, [(crate_dir, target, h, idx[h]['unwind'], timeout, idx[h].get('n', 0)) for h in harnesses]):
                 results[h] = r
         return dict(cmd='cargo kani --only-codegen%s; then per harness: cbmc %s --unwind <len+3> [--unwindset <spec loops>:24] <harness goto binary> --json-ui  (x%d, %d parallel)'
                         % ((' --features ' + ','.join(features)) if features else '', ' '.join(CBMC_FLAGS), len(harnesses), jobs),
